@@ -112,6 +112,9 @@ impl<F: Read + Seek> BufRead for Stream<F> {
         {
             self.flush_changes()?;
             self.buf_offset_from_start += self.buffer.cursor() as u64;
+            // The window has moved, so the old contents are stale; drop them
+            // now so that a failed refill cannot serve them at the new offset.
+            self.buffer.clear();
             let remaining = self.total_len - self.buf_offset_from_start;
             let stream_id = self.stream_id;
             let offset = self.buf_offset_from_start;
